@@ -77,6 +77,9 @@ type Case struct {
 	Debug   bool   `json:"debug"`
 	Stream  bool   `json:"stream"` // feed as one stream through HandleMessages instead of frame by frame
 	Msgs    []Obs  `json:"msgs"`
+	// Splits (stream mode): the history is fed as several consecutive streams - one HandleMessages call
+	// each, on the same handler - cut before the message indices listed here (a source that reconnects).
+	Splits []int `json:"splits,omitempty"`
 }
 
 func (c Case) Start() time.Time {
@@ -184,17 +187,33 @@ func CheckVia(c Case, o *stats.Obs, feed Feeder) error {
 			outs[i].m = &msgs[i]
 		}
 	} else if c.Stream {
-		var input []byte
-		for _, f := range frames {
-			input = append(input, f...)
+		cut := map[int]bool{}
+		for _, k := range c.Splits {
+			cut[k] = true
 		}
-		res := drive.Run(h, input, drive.Options{InCap: 64, OutCap: 4})
-		if res.Panic != "" || !res.Closed || len(res.Msgs) != len(frames) {
-			o.Key = "stream"
-			return fmt.Errorf("stream of %d MSM frames: panic=%q closed=%v messages=%d", len(frames), res.Panic, res.Closed, len(res.Msgs))
+		var all []handler.Message
+		from := 0
+		for i := 0; i <= len(frames); i++ {
+			if i < len(frames) && !(cut[i] && i > from) {
+				continue
+			}
+			var input []byte
+			for _, f := range frames[from:i] {
+				input = append(input, f...)
+			}
+			res := drive.Run(h, input, drive.Options{InCap: 64, OutCap: 4})
+			if res.Panic != "" || !res.Closed || len(res.Msgs) != i-from {
+				o.Key = "stream"
+				return fmt.Errorf("stream of %d MSM frames (messages %d..%d of the history): panic=%q closed=%v messages=%d", i-from, from, i-1, res.Panic, res.Closed, len(res.Msgs))
+			}
+			all = append(all, res.Msgs...)
+			from = i
 		}
-		for i := range res.Msgs {
-			outs[i].m = &res.Msgs[i]
+		for i := range all {
+			outs[i].m = &all[i]
+		}
+		if len(c.Splits) > 0 {
+			o.Class("history-over-several-streams")
 		}
 	} else {
 		for i, f := range frames {
@@ -471,6 +490,12 @@ func GenAt(t *rapid.T, anywhere bool, midnightUTC bool) Case {
 		}
 		c.Msgs = append(c.Msgs, seqs[cc][idx[cc]])
 		idx[cc]++
+	}
+	if c.Stream && len(c.Msgs) > 1 && rapid.Bool().Draw(t, "splitStream") {
+		k := rapid.IntRange(1, 3).Draw(t, "nSplits")
+		for i := 0; i < k; i++ {
+			c.Splits = append(c.Splits, rapid.IntRange(1, len(c.Msgs)-1).Draw(t, "splitAt"))
+		}
 	}
 	return c
 }
